@@ -1,0 +1,134 @@
+//! Entry points for external verification harnesses.
+//! Only compiled with `RUSTFLAGS="--cfg parol_verif"`; not part of the language server proper.
+//!
+//! * Batch mode (`PAROL_LS_VERIF_BATCH=1`): reads one JSON string per line from stdin, parses it
+//!   with the language server's grammar parser exactly like `Server::analyze` does and answers
+//!   with one JSON object per line.
+//! * Gates: when switched on with the notification `verif/gating`, every background analysis
+//!   announces itself with `verif/reached` and waits until the client sends `verif/release` for
+//!   its version and phase. `verif/done` is sent when a background analysis has finished.
+
+use std::collections::HashSet;
+use std::io::{BufRead, Write};
+use std::path::Path;
+use std::sync::{Condvar, Mutex, OnceLock};
+
+use lsp_server::{Connection, Message, Notification};
+use parol_runtime::{ParolError, ParserError};
+
+use crate::parol_ls_grammar::ParolLsGrammar;
+
+#[derive(Clone, Copy, PartialEq, Eq, Hash, Debug)]
+pub(crate) enum Phase {
+    Start,
+    Publish,
+}
+
+#[derive(Default)]
+struct Gates {
+    on: bool,
+    released: HashSet<(i32, Phase)>,
+}
+
+fn gates() -> &'static (Mutex<Gates>, Condvar) {
+    static GATES: OnceLock<(Mutex<Gates>, Condvar)> = OnceLock::new();
+    GATES.get_or_init(|| (Mutex::new(Gates::default()), Condvar::new()))
+}
+
+pub(crate) fn batch_mode_requested() -> bool {
+    std::env::var("PAROL_LS_VERIF_BATCH").is_ok()
+}
+
+fn classify(e: &ParolError) -> &'static str {
+    match e {
+        ParolError::ParserError(p) => match p {
+            ParserError::SyntaxErrors { .. } => "syntax",
+            ParserError::PredictionError { .. } => "syntax",
+            ParserError::UnprocessedInput { .. } => "syntax",
+            ParserError::TooManyErrors { .. } | ParserError::RecoveryFailed => "syntax",
+            ParserError::MaxParsingDepthExceeded { .. } => "depth",
+            _ => "internal",
+        },
+        ParolError::LexerError(_) => "lexer",
+        ParolError::UserError(_) => "user",
+    }
+}
+
+pub(crate) fn run_batch() {
+    let stdin = std::io::stdin();
+    let stdout = std::io::stdout();
+    for line in stdin.lock().lines() {
+        let Ok(line) = line else { break };
+        let text: String = match serde_json::from_str(&line) {
+            Ok(t) => t,
+            Err(_) => continue,
+        };
+        let mut data = ParolLsGrammar::default();
+        let answer = match crate::parol_ls_parser::parse(&text, Path::new("batch.par"), &mut data)
+        {
+            Ok(_) => serde_json::json!({"ok": true}),
+            Err(e) => serde_json::json!({"ok": false, "class": classify(&e), "message": e.to_string()}),
+        };
+        let mut out = stdout.lock();
+        let _ = writeln!(out, "{answer}");
+        let _ = out.flush();
+    }
+}
+
+fn notify(connection: &Connection, method: &str, params: serde_json::Value) {
+    let _ = connection
+        .sender
+        .send(Message::Notification(Notification {
+            method: method.to_string(),
+            params,
+        }));
+}
+
+pub(crate) fn gate(connection: &Connection, version: i32, phase: Phase) {
+    let (mutex, condvar) = gates();
+    let mut g = mutex.lock().unwrap();
+    if !g.on {
+        return;
+    }
+    notify(
+        connection,
+        "verif/reached",
+        serde_json::json!({"version": version, "phase": format!("{phase:?}")}),
+    );
+    while g.on && !g.released.contains(&(version, phase)) {
+        g = condvar.wait(g).unwrap();
+    }
+}
+
+pub(crate) fn done(connection: &Connection, version: i32) {
+    notify(
+        connection,
+        "verif/done",
+        serde_json::json!({"version": version}),
+    );
+}
+
+/// Returns true if the notification was one of the harness' control messages.
+pub(crate) fn handle_notification(not: &Notification) -> bool {
+    let (mutex, condvar) = gates();
+    match not.method.as_str() {
+        "verif/gating" => {
+            let mut g = mutex.lock().unwrap();
+            g.on = not.params["on"].as_bool().unwrap_or(false);
+            g.released.clear();
+            condvar.notify_all();
+            true
+        }
+        "verif/release" => {
+            let phase = match not.params["phase"].as_str() {
+                Some("Start") => Phase::Start,
+                _ => Phase::Publish,
+            };
+            let version = not.params["version"].as_i64().unwrap_or(0) as i32;
+            mutex.lock().unwrap().released.insert((version, phase));
+            condvar.notify_all();
+            true
+        }
+        _ => false,
+    }
+}
